@@ -40,6 +40,8 @@ const (
 	symFinalOtherKey
 	symFinalTampered
 	symFinalEmptyState
+	symFinalNoVerifier
+	symFinalPrefix
 	symEmpty
 	symJunk
 	sym235
@@ -48,11 +50,11 @@ const (
 )
 
 var c15SymNames = []string{"server-first(valid)", "server-first(foreign nonce)", "server-first(foreign nonce, longer than any nonce seen so far)", "server-first(malformed)", "server-final(valid)",
-	"server-final(other exchange/key)", "server-final(valid prefix, tampered tail)", "server-final(over empty state)", "empty challenge", "junk", "235", "535"}
+	"server-final(other exchange/key)", "server-final(valid prefix, tampered tail)", "server-final(over empty state)", "server-final(empty verifier \"v=\")", "server-final(proper prefix of the genuine signature)", "empty challenge", "junk", "235", "535"}
 
 const (
-	c15User = "scram,user=x"
-	c15Pass = "correct horse battery"
+	c15User = "scram,user=x%s"
+	c15Pass = "correct horse %d battery"
 )
 
 // c15Server is the scripted SCRAM server plus the reference automaton that knows which successes are legitimate.
@@ -250,6 +252,18 @@ func (s *c15Server) emit(sym int) (challenge []byte, code int) {
 		s.lastWasFinal = symFinalEmptyState
 		sig := mac(h, mac(h, nil, []byte("Server Key")), nil)
 		return []byte("v=" + b64(sig)), 334
+	case symFinalNoVerifier:
+		s.lastWasFinal = symFinalNoVerifier
+		return []byte("v="), 334
+	case symFinalPrefix:
+		// the first half of the genuine signature of the running exchange (or of a constant when there is none),
+		// re-padded so that it is well-formed base64
+		s.lastWasFinal = symFinalPrefix
+		sig := []byte("0123456789abcdefghij")
+		if s.validSig != nil {
+			sig = s.validSig
+		}
+		return []byte("v=" + b64(sig[:len(sig)/2])), 334
 	case symEmpty:
 		return []byte{}, 334
 	case symJunk:
@@ -350,6 +364,10 @@ func c15ExecR(r *vf.Run, variant, maxLen int, hist int, c *vf.Chooser) (keys, wh
 				why = "forged-signature(tampered tail)"
 			case symFinalEmptyState:
 				why = "forged-signature(over empty state)"
+			case symFinalNoVerifier:
+				why = "forged-signature(empty verifier)"
+			case symFinalPrefix:
+				why = "forged-signature(prefix of the genuine one)"
 			case symFinalValid:
 				if !srv.validSigShown {
 					why = "signature-outside-exchange"
@@ -454,7 +472,7 @@ func init() {
 	vf.Register(&vf.Check{
 		ID: "C15", Title: "SCRAM authenticates the server",
 		Run: func(r *vf.Run) {
-			r.SetRule("every server message sequence up to length L over the 12-symbol alphabet {valid server-first, server-first with foreign/truncated nonce, server-first with an unrelated nonce longer than any seen so far, malformed server-first, valid server-final (genuine signature over whatever exchange is running), server-final of another exchange/key, server-final with valid prefix and tampered tail, server-final over empty state, empty challenge, junk, 235, 535}, chosen on the fly after each client message, through smtp.Client.Auth on the synchronous connection, for SCRAM-SHA-1/-256 and both PLUS variants, with a fresh Auth object, with an Auth object that already completed a conforming exchange on an earlier connection (whose genuine server signature the server may replay), and with an Auth object that went through an earlier exchange which is itself explored over the alphabet (so it may have failed or been aborted at any point; two exchanges of up to L-2 server messages each); reference automaton decides which successes are legitimate; distinct by (variant, sequence)")
+			r.SetRule("every server message sequence up to length L over the 14-symbol alphabet {valid server-first, server-first with foreign/truncated nonce, server-first with an unrelated nonce longer than any seen so far, malformed server-first, valid server-final (genuine signature over whatever exchange is running), server-final of another exchange/key, server-final with valid prefix and tampered tail, server-final over empty state, server-final with an empty verifier, server-final with a proper prefix of the genuine signature, empty challenge, junk, 235, 535}, chosen on the fly after each client message, through smtp.Client.Auth on the synchronous connection, for SCRAM-SHA-1/-256 and both PLUS variants, with a fresh Auth object, with an Auth object that already completed a conforming exchange on an earlier connection (whose genuine server signature the server may replay), and with an Auth object that went through an earlier exchange which is itself explored over the alphabet (so it may have failed or been aborted at any point; two exchanges of up to L-2 server messages each); reference automaton decides which successes are legitimate; distinct by (variant, sequence)")
 			r.Assume("PLUS variants run over a fabricated TLS 1.2 connection state (tls-unique); the real handshake is covered by C14", "password/user are ASCII")
 			maxLen0 := 5
 			if r.Thorough {
